@@ -50,43 +50,52 @@ def extra(run, mod):
 
 
 def replay_mutants(prop):
+    """Replays the stored seeds written against this property (and recorded as caught by its check) on scratch copies
+    of the current tree, four at a time."""
     out = {'applied': 0, 'fired': 0, 'stale': 0, 'missed': [], 'cases': []}
     if os.environ.get('VERIF_NO_EVIDENCE'):
         return out      # we are ourselves a mutant run
-    metas = sorted(glob.glob(os.path.join(VERIF, 'seeded', '*', 'meta.json')))
-    for mp in metas:
+    from concurrent.futures import ThreadPoolExecutor
+    todo = []
+    for mp in sorted(glob.glob(os.path.join(VERIF, 'seeded', '*', 'meta.json'))):
         try:
             meta = json.load(open(mp))
         except Exception:
             continue
-        if prop not in meta.get('caught_by', []):
+        if meta.get('breaks_property') != prop or prop not in meta.get('caught_by', []):
             continue
-        patch = os.path.join(os.path.dirname(mp), 'patch.diff')
+        todo.append((meta, os.path.join(os.path.dirname(mp), 'patch.diff')))
+
+    def one(arg):
+        meta, patch = arg
         tmp = tempfile.mkdtemp(prefix='verif-mutant-')
         try:
             dst = os.path.join(tmp, 'repo')
             os.makedirs(dst)
             for sub in ('src', 'include', 'CMakeLists.txt'):
-                s = os.path.join(simlib.REPO, sub)
-                if os.path.isdir(s):
-                    shutil.copytree(s, os.path.join(dst, sub))
+                s_ = os.path.join(simlib.REPO, sub)
+                if os.path.isdir(s_):
+                    shutil.copytree(s_, os.path.join(dst, sub))
                 else:
-                    shutil.copy(s, os.path.join(dst, sub))
+                    shutil.copy(s_, os.path.join(dst, sub))
             r = subprocess.run(['patch', '-p1', '-s', '-f', '-d', dst, '-i', patch], capture_output=True, text=True)
             if r.returncode != 0:
-                out['stale'] += 1
-                out['cases'].append({'seed': meta['id'], 'result': 'stale'})
-                continue
-            out['applied'] += 1
+                return (meta['id'], 'stale', '')
             env = dict(os.environ, VERIF_REPO=dst, VERIF_NO_EVIDENCE='1', VERIF_TIER='quick')
             p = subprocess.run([os.path.join(VERIF, 'check'), prop, '--tier', 'quick'], capture_output=True, text=True, env=env)
-            fired = p.returncode == 1
             first = next((l for l in p.stdout.splitlines() if ': [' in l), '')
-            if fired:
-                out['fired'] += 1
-            else:
-                out['missed'].append(meta['id'])
-            out['cases'].append({'seed': meta['id'], 'result': 'reported' if fired else 'rc=%d' % p.returncode, 'first_report': first.replace(dst, '/repo')[:240]})
+            return (meta['id'], 'reported' if p.returncode == 1 else 'rc=%d' % p.returncode, first.replace(dst, '/repo')[:240])
         finally:
             shutil.rmtree(tmp, ignore_errors=True)
+    with ThreadPoolExecutor(max_workers=4) as ex:
+        for sid, res, first in ex.map(one, todo):
+            if res == 'stale':
+                out['stale'] += 1
+            else:
+                out['applied'] += 1
+                if res == 'reported':
+                    out['fired'] += 1
+                else:
+                    out['missed'].append(sid)
+            out['cases'].append({'seed': sid, 'result': res, 'first_report': first})
     return out
